@@ -451,7 +451,9 @@ def _col_same(a, b):
         if fx and fy:
             if not (x == y or (math.isnan(x) and math.isnan(y))):
                 return False
-        elif fx or fy:
+        elif fy:
+            return False          # the curve holds a float here: "equal values" means a number, not its text ('2.5', 'nan')
+        elif fx:
             try:
                 if float(x) != float(y) and not (math.isnan(float(x)) and math.isnan(float(y))):
                     return False
